@@ -349,6 +349,7 @@ def run_check(pid, mod, tier, seed, t0):
     known_seen = {}
     corr_error = None
     exhaustive = False
+    pure_evals = {}
 
     def account(items):
         nonlocal evaluations
@@ -393,6 +394,19 @@ def run_check(pid, mod, tier, seed, t0):
                     step = max(1, len(items) // 4)
                     for inp, out in items[::step][:5]:
                         samples.append({"input": mod.to_json_input(inp), "impl_output": mod.to_json_output(out)})
+            # extra passes: the PyMini reference interpreter against CPython on the pure helpers whose
+            # generated syntax trees the models are tied to (harness/purecorr.py)
+            for fname in getattr(mod, "PURE_HELPERS", ()):
+                import purecorr
+                ok2, _ = make([purecorr.CORR_VO])
+                ps = purecorr.Pass(fname)
+                pitems = [(a, ps.run(a)) for a in ps.inputs(tier)]
+                pmf, _ = evaluate(pid, ps, pitems, "pure_" + fname) if ok2 else (list(range(len(pitems))), [])
+                pure_evals[fname] = len(pitems)
+                if pmf:
+                    a, o = pitems[pmf[0]]
+                    broken.append("reference interpreter Spec/PyMini.v on the generated tree of %s disagrees with CPython "
+                                  "on %d of %d argument tuples, first: %r -> %r" % (fname, len(pmf), len(pitems), a, o))
             # failing-input search: something no longer checks but no concrete failure yet
             if (broken or model_fail_items) and not spec_fail_items and tier == "quick":
                 log("[search] proof or correspondence broken; searching for a concrete failing input")
@@ -464,6 +478,8 @@ def run_check(pid, mod, tier, seed, t0):
         "known_findings_reproduced": sorted(known_seen),
         "notes": notes,
     }
+    if pure_evals:
+        cov["pure_helper_interpreter_evaluations"] = pure_evals
     if coqchk_out:
         cov["coqchk_tail"] = coqchk_out
     if cov["discharged"] == 0:
